@@ -9,7 +9,11 @@ U32 = 0xFFFFFFFF
 
 def cfg_variant(r, base=None):
     c = dict(base or DEFAULT_EP)
-    how = r.weighted([("same", 6), ("smallalloc", 1), ("bigpkt", 1), ("rates", 2), ("timeouts", 2), ("noka", 1)])
+    how = r.weighted([("same", 6), ("smallalloc", 1), ("bigpkt", 1), ("rates", 2), ("timeouts", 2), ("noka", 1), ("asym", 2)])
+    if how == "asym":
+        # every limit different from every other one (a field put into the wrong slot of a handshake frame shows)
+        c["maxpkt"] = r.pick([10_000, 100_000, 500_000]); c["alloc"] = r.pick([1_000_000, 1_500_000, 3_000_000])
+        c["recv"] = r.pick([300_000, 1_234_567]); c["send"] = r.pick([400_000, 2_345_678])
     if how == "smallalloc":
         c["alloc"] = r.pick([1000, 100_000])          # may be below the peer's max_packet_size -> Config error
     elif how == "bigpkt":
